@@ -92,6 +92,25 @@ theorem checkStr_false_iff (s : List Char) (t? : Option DTree) :
       (parseOutcome g isNT bound f const s t? = .syntaxError ∨ parseOutcome g isNT bound f const s t? = .semanticError) := by
   unfold checkStr; split <;> simp_all
 
+/-- `check(s) = True` means: `s` is a word of the grammar and its parse tree satisfies the constraint -/
+theorem checkStr_true_sound (s : List Char) (t? : Option DTree) (h0 : Grammar.isNT g "" = false)
+    (hS : Grammar.isNT g "<start>" = true) (h : checkStr g isNT bound f const s t? = some true) :
+    C10.InLang g "<start>" s ∧ ∃ t, t? = some t ∧ t.valid g = true ∧ t.closed = true ∧ t.yieldC g = s ∧
+      Sat { g := g, root := t, isNT := isNT, intBound := bound } [(const, Bind.path [])] f :=
+  parse_ok g isNT bound f const s t? h0 hS ((checkStr_true_iff g isNT bound f const s t?).1 h)
+
+/-- `check` and `parse` can never disagree: `check` is definite exactly when `parse` is, `True` goes
+with a returned tree and `False` with one of the two errors; the three outcomes exclude each other -/
+theorem check_parse_agree (s : List Char) (t? : Option DTree) (b : Bool)
+    (h : checkStr g isNT bound f const s t? = some b) :
+    (b = true ↔ parseOutcome g isNT bound f const s t? = .ok) := by
+  cases b
+  · have := (checkStr_false_iff g isNT bound f const s t?).1 h
+    constructor
+    · intro hb; cases hb
+    · intro hp; rcases this with h' | h' <;> rw [hp] at h' <;> cases h'
+  · exact ⟨fun _ => (checkStr_true_iff g isNT bound f const s t?).1 h, fun _ => rfl⟩
+
 /-- results of `repair` / `mutate` (and `check` on a tree) are judged by the certifier of C01 -/
 theorem certified_result (w : World) (startSym const : String) (f : Fm) (h : certify w startSym const f = true) :
     w.root.valid w.g = true ∧ w.root.closed = true ∧ w.root.sym = startSym ∧
